@@ -989,6 +989,14 @@ def rule_P_SKELETON(ctx, floor=30):
             ctx.extra.setdefault("unreviewed_new_functions", []).append(name)
             continue
         d = diff(r["skeleton"], s)
+        if d is not None and name.endswith("::transform_mid_result"):
+            # proof beats reference: this function's production IS the kind decision table; when K-KIND proves the table on the paths of the
+            # MIR body (props/c15.kind_by_paths) the spelling of the decision is free
+            import c15
+            proof, _why = c15.kind_by_paths(ctx, it)
+            if proof:
+                ctx.ob("P-SKELETON", name + " (decision table proven by path evaluation)", True, "", site)
+                continue
         ctx.ob("P-SKELETON", name, d is None, d or "", site)
     for name in sorted(set(ref) - set(got)):
         if name.rsplit("::", 1)[-1] in EMPTY:
